@@ -126,6 +126,9 @@ DESC = {
  "C20-m5": ("src/node.rs change_child_bind_rhs: remove_parent before the 'same node' early return", "bind closure re-runs and returns the identical (memoised) node"),
  "C20-m6": ("src/public.rs weak_memoize_fn: dead-entry path calls f without within_scope", "key re-created while its dead entry is still in the map, from inside a bind closure; that bind re-runs while the node is shared"),
 }
+OBSOLETE = {
+ "C04-m3": "no longer a breakage: since the repair of D13 (5e17248, handlers are checked out of the cell while they run) clearing the handler table from inside a handler does not panic any more; the demonstration passes with the patch applied (confirm.log shows the re-confirmation on the repaired tree). It was caught by ./check C04 quick before that repair (matrix.txt, tag t3).",
+}
 rows = []
 for name in sorted(os.listdir(S)):
     d = os.path.join(S, name)
@@ -164,8 +167,10 @@ for name in sorted(os.listdir(S)):
         "not_caught_by": sorted(c for c in missed if c not in caught),
         "own_property_check_catches_it": prop in caught,
     }
+    if name in OBSOLETE:
+        meta["obsolete"] = OBSOLETE[name]
     json.dump(meta, open(os.path.join(d, "meta.json"), "w"), indent=1)
-    rows.append((name, what, ", ".join(sorted(caught)) or "-", "yes" if prop in caught else ("NO" if prop in missed else "?")))
+    rows.append((name, what, ", ".join(sorted(caught)) or "-", "obsolete (see meta.json)" if name in OBSOLETE else "yes" if prop in caught else ("NO" if prop in missed else "?")))
 if "--table" in sys.argv:
     print("| seed | change | own check | caught by (quick tier) |")
     print("|------|--------|-----------|------------------------|")
